@@ -8,6 +8,30 @@ def run(ctx, spec):
     mism, counters, samples = S.compare_run(ctx, cases, impl, model, S.ALL_FIELDS,
                                             "result differs from the VM model", treat_budget_as_ok=False)
     mism = [m for m in mism if not (m["impl"] in ("DIVERGE", "HANG") and m["model"] == "DIVERGE")]
+    # (a') the theorem's own criterion: where C10_terminates_guardedB applies to every search command of the program
+    # (GUARD k/k printed by the driver), the real engine must return — whatever the VM model did on that case
+    guarded_cases = recursive_cases = 0
+    for cid, cline in cases.items():
+        parts = cline.split("\t")
+        if parts[0] != "run" or model.get(cid) is None:
+            continue
+        gd = C.fields(model[cid]).get("GUARD")
+        if not gd:
+            continue
+        recursive_cases += 1
+        k, n = gd.split("/")
+        if k != n:
+            continue
+        guarded_cases += 1
+        il = impl.get(cid, "MISSING")
+        ires = C.fields(il).get("RES", il.split("\t")[0])
+        if ires in ("DIVERGE", "HANG") or il in ("HANG", "CRASH"):
+            src, text = C.unhex(parts[1]), C.unhex(parts[2])
+            ctx.violation("failing-input", "the search does not terminate although the program has no unguarded recursion "
+                          "(guardedB holds, C10_terminates_guardedB applies)",
+                          dict(case_id=cid, source=src.decode("latin1"), text=text.decode("latin1"), text_hex=text.hex(),
+                               implementation=il[:200]), key=S.case_key(src, text))
+    counters.update(programs_with_subroutines=recursive_cases, guarded_by_criterion=guarded_cases)
     # (b) the exhaustive enumeration of nullable nests
     nprog = ntext = nspec = 0
     max_steps = 0
@@ -63,14 +87,23 @@ def run(ctx, spec):
 
 PROPS = {"C10": dict(
     lean_modules=["Vore.Props.C10"],
-    theorems=["Vore.C10_terminates_callfree", "Vore.C10_spec_total", "Vore.C10_fuel_monotone"],
+    theorems=["Vore.C10_terminates_callfree", "Vore.C10_spec_total", "Vore.C10_fuel_monotone",
+              "Vore.C10_spec_total_guarded", "Vore.C10_terminates_guarded", "Vore.C10_terminates_guardedB"],
     run=run,
     manifest=dict(
         text="Proved in Lean for every program without subroutines and every input: the search returns (some fuel suffices, "
              "every amount clause) — because the specification is total (an optional iteration that consumed nothing is "
              "rejected; consumption is bounded by the text; loop fuel |text|+2 is never exhausted) and the VM simulates it "
-             "(C10_terminates_callfree, C10_spec_total, C10_fuel_monotone). PARTIAL: guarded recursive subroutines are "
-             "not under the theorem. Correspondence/search: exhaustive enumeration of nullable nests (maybe, at least 0, "
+             "(C10_terminates_callfree, C10_spec_total, C10_fuel_monotone). Stage 2, subroutines, global patterns and "
+             "RECURSION (C10_terminates_guarded, C10_spec_total_guarded, decidable form C10_terminates_guardedB): if every "
+             "call stands behind something that must consume a byte since the enclosing subroutine body was entered, or "
+             "goes to a subroutine of strictly smaller rank, and predicates evaluate, then for every input the "
+             "specification answers within call depth (|text|+1)*R and the VM on the generated code returns exactly that "
+             "answer under every amount clause (lexicographic measure: text left at body entry, rank). PARTIAL: the "
+             "guardedness criterion is conservative (ranges, negated classes and consumption inside a callee are not "
+             "counted as guards); named loops are outside the resolved language; the two-pass generator is tied to "
+             "generate.go by L4 correspondence. Correspondence/search: the driver evaluates the criterion on every "
+             "generated program with subroutines and the real engine must return wherever it holds; exhaustive enumeration of nullable nests (maybe, at least 0, "
              "anchors, negated anchors, not in, fewest, nested unbounded loops) to depth 2 (quick) / 3 (thorough) x all "
              "texts over {a,b,\\n} to length 3 / 4 on the real engine with a VM step counter (hook), compared with the "
              "model and with Spec.findAll; the budget (400k steps) is orders of magnitude above the largest count seen "
